@@ -354,6 +354,221 @@ def task_scf_adjoint_inputs(ctx):
     ctx.undecided_clause("value of the implicit adjoint solve (fixed point reached, Anderson/Picard), second-order derivatives")
 
 
+
+def replay_mixer_tape(model):
+    """real adaptive_mix on real torch: reverse-mode derivative of the mixed density with respect to a common shift of the three
+    density arguments, against a central finite difference.  At a near-converged point with the extrapolation factor frozen the
+    two must agree (the mixer is an affine combination whose weights sum to one)."""
+    import torch
+    import seqm.seqm_functions.scf_loop as S_
+
+    torch.set_default_dtype(torch.float64)
+    rows = []
+    for it in (3, 6, 7):
+        P1 = torch.tensor([[[1.20, 0.31], [0.31, 0.80]]])
+        P0 = torch.tensor([[[1.21, 0.30], [0.30, 0.79]]])
+        D2 = torch.tensor([[1.23, 0.77]])
+        real_fac = S_.compute_fac
+        S_.compute_fac = lambda *a, **k: torch.full((1,), 0.7)
+        try:
+            s = torch.zeros((), requires_grad=True)
+            E2 = torch.eye(2).unsqueeze(0)
+            out, _ = S_.adaptive_mix(it, P0 + s * E2, P1 + s * E2, D2 + s, False)
+            g = torch.stack([torch.autograd.grad(out[0, i, i], s, retain_graph=True)[0] for i in range(2)])
+            h = 1e-5
+            with torch.no_grad():
+                op, _ = S_.adaptive_mix(it, P0 + h * E2, P1 + h * E2, D2 + h, False)
+                om, _ = S_.adaptive_mix(it, P0 - h * E2, P1 - h * E2, D2 - h, False)
+            fd = torch.stack([(op[0, i, i] - om[0, i, i]) / (2 * h) for i in range(2)])
+        finally:
+            S_.compute_fac = real_fac
+        rows.append({"scf_iteration": it, "reverse_mode_d(diag)/d(common shift)": g.tolist(), "finite_difference": fd.tolist(), "max_abs_difference": float((g - fd).abs().max())})
+    return {"reproduced": any(r["max_abs_difference"] > 1e-6 for r in rows), "rows": rows}
+
+
+def task_mixer_tape(ctx):
+    """O5: the unrolled mode (scf_backward=2) differentiates the SCF iteration itself, so every stop-gradient on the path from the
+    densities to the mixed density must be harmless at self-consistency: the derivative of the mixer's result with respect to
+    each value that the tape holds constant (x.detach(), x.data, anything built under no_grad) vanishes when previous, new and
+    two-steps-back densities coincide.  Then the tape's linearisation maps a common shift of the densities to the same shift and
+    the unrolled derivative converges to the derivative of the fixed point.  Real adaptive_mix on symbolic 2x2 densities with
+    stop-gradient tracking on; compute_fac replaced by its frame (a value per molecule, computed under no_grad)."""
+    import seqm.seqm_functions.scf_loop as S_
+
+    SCFM = "seqm.seqm_functions.scf_loop"
+    ctx.under_contract(SCFM + ":adaptive_mix", stubs=["compute_fac"])
+    one = E.const(Fraction(1), E.R)
+    checked = 0
+    for it in (3, 6, 7):
+        def thunk():
+            st.tape_reset(True)
+            P0 = st.symbolic((1, 2, 2), "Pprev")
+            P1 = st.symbolic((1, 2, 2), "Pcur")
+            D2 = st.symbolic((1, 2), "Dold2")
+            ins = (P0.clone(), P1.clone(), D2.clone())  # (when no extrapolation is due the result aliases, and overwrites, the new density)
+            out, hist = S_.adaptive_mix(it, P0, P1, D2, False)
+            return (out,) + ins + (dict(st.TAPE["origin"]),)
+
+        # the path of a point near self-consistency (concolic: one valuation decides the branches, the decisions are recorded)
+        point = {"Pprev_0_0_0": Fraction(121, 100), "Pprev_0_0_1": Fraction(30, 100), "Pprev_0_1_0": Fraction(30, 100), "Pprev_0_1_1": Fraction(79, 100),
+                 "Pcur_0_0_0": Fraction(120, 100), "Pcur_0_0_1": Fraction(31, 100), "Pcur_0_1_0": Fraction(31, 100), "Pcur_0_1_1": Fraction(80, 100),
+                 "Dold2_0_0": Fraction(123, 100), "Dold2_0_1": Fraction(77, 100), "fac_0": Fraction(7, 10)}
+
+        def guide(n):
+            return bool(E.evaluate(st.tape_restore(n), point, mode="frac"))
+
+        try:
+            ex = ctx.explore(thunk, stubs={SCFM + ":compute_fac": lambda a, b, c: st.symbolic((a.shape[0],), "fac")}, name="adaptive_mix[it=%d]" % it, max_paths=48, guide=guide)
+        finally:
+            st.tape_reset(False)
+        if not ex.paths:
+            ctx.error("mixer_tape.it=%d.paths" % it, "no path")
+        for p in ex.paths:
+            if p.raised is not None:
+                if isinstance(p.raised, Unmodelled):
+                    raise p.raised
+                continue
+            out, P0, P1, D2, origin = p.value
+            st.TAPE["origin"] = origin
+            # fixed point: previous = new density, two-steps-back diagonal = its diagonal
+            fix = {}
+            for i in range(2):
+                for j in range(2):
+                    fix[P0.a[0, i, j].n] = P1.a[0, i, j].n
+                fix[D2.a[0, i].n] = P1.a[0, i, i].n
+            sgs = sorted(origin)
+            for i in range(2):
+                for j in range(2):
+                    o = out.a[0, i, j].n
+                    for sname in sgs:
+                        v = E.var(sname, E.R)
+                        if v not in E.free_vars(o):
+                            continue
+                        d = E.diff(o, v)
+                        d = E.substitute(st.tape_restore(d), fix)
+                        pc = [Sym(E.substitute(st.tape_restore(E.node_of(c)), fix)) for c in p.pc]
+                        what = E.to_str(origin[sname], 60)
+                        ctx.prove_eq("mixer_tape.it=%d.out[%d,%d].held-constant(%s).has-no-weight-at-self-consistency@p%d" % (it, i, j, what, p.path_id), Sym(d), Sym(E.const(Fraction(0), E.R)), pc=pc,
+                                     replay=replay_mixer_tape)
+                        checked += 1
+                    # and the tape's linearisation maps a common shift to the same shift on the diagonal, to itself off it
+                    tot = E.const(Fraction(0), E.R)
+                    for src in (P0.a[0, i, j].n, P1.a[0, i, j].n) + ((D2.a[0, i].n,) if i == j else ()):
+                        tot = E.add(tot, E.diff(o, src))
+                    tot = E.substitute(st.tape_restore(tot), fix)
+                    pc = [Sym(E.substitute(st.tape_restore(E.node_of(c)), fix)) for c in p.pc]
+                    # restricted to the regular branch: no cap, no clamp, already normalised (|delta| = 0 at the fixed point)
+                    ctx.prove_eq("mixer_tape.it=%d.out[%d,%d].tape-maps-a-common-shift-of-its-own-entry-to-the-same-shift@p%d" % (it, i, j, p.path_id), Sym(tot), Sym(one), pc=pc + _regular(P1), replay=replay_mixer_tape)
+                    checked += 1
+            st.TAPE["origin"] = {}
+    if not checked:
+        ctx.error("mixer_tape.vacuous", "no obligation generated")
+    ctx.assume_note("mixer_tape: ONE path of adaptive_mix per iteration kind (3: first extrapolation, 6: extrapolation with the 0.05 cap armed, 7: no extrapolation) -- the path a point near self-consistency takes (no cap, no clamp, already normalised); the cap/clamp/renormalisation branches are not covered")
+    ctx.assume_note("mixer_tape: one molecule, 2x2 density; compute_fac replaced by a fresh value per molecule (its own result is only ever used under no_grad); views taken of tracked tensors inside a no_grad region keep their elements (not tagged)")
+
+
+def _regular(P1):
+    """strictly inside the occupation bounds, so clamp and renormalisation are the identity at the fixed point"""
+    out = []
+    for i in range(2):
+        d = P1.a[0, i, i]
+        out += [d > Fraction(1, 100), d < Fraction(199, 100)]
+    return out
+
+
+
+def replay_driver_tape(model):
+    """real scf_forward0 (backward=True, one iteration: MAX_ITER patched to 0) on real torch with the callees replaced by simple
+    differentiable maps: d(returned density)/d(common shift of the previous and the new density) must be 1 per element."""
+    import torch
+    import seqm.seqm_functions.scf_loop as S_
+
+    torch.set_default_dtype(torch.float64)
+    saved = {k: getattr(S_, k) for k in ("MAX_ITER", "fock_restricted", "elec_energy", "make_Pnew_factory", "get_error", "reshape_Hcore")}
+    s = torch.zeros((), requires_grad=True)
+    P0 = torch.tensor([[[1.2, 0.3], [0.3, 0.8]]]) + s
+    Pn = torch.tensor([[[1.1, 0.2], [0.2, 0.9]]]) + s
+    try:
+        S_.MAX_ITER = 0
+        S_.fock_restricted = lambda nmol, molsize, P, M, *a: P * 1.0
+        S_.elec_energy = lambda P, F, H: (P * F).sum(dim=(1, 2))
+        S_.make_Pnew_factory = lambda *a, **k: (lambda F, *c: Pn[: F.shape[0]])
+        S_.get_error = lambda Pold, P, nc, *a, **k: (nc, torch.zeros(()), torch.zeros(()))
+        S_.reshape_Hcore = lambda M, nmol, molsize, method: torch.zeros(1, 2, 2)
+        one = torch.ones(1, dtype=torch.long)
+        args = (torch.zeros(1, 1, 1), None, None, None, None, None, None, None, one, one, one * 0, one, 1, 1, None, None, None, None, P0, 1e-6, "AM1", None, None, None, None, None, None)
+        P, _ = S_.scf_forward0(*args, sp2=[False], scf_converger=[0, 0.3], backward=True, verbose=False)
+        g = torch.stack([torch.autograd.grad(P[0, i, j], s, retain_graph=True, allow_unused=True)[0] if P[0, i, j].requires_grad else torch.zeros(()) for i in range(2) for j in range(2)])
+    finally:
+        for k, v in saved.items():
+            setattr(S_, k, v)
+    return {"reproduced": bool((g - 1.0).abs().max() > 1e-12), "reverse_mode_dP/d(common shift)": g.tolist(), "expected": [1.0] * 4}
+
+
+def task_driver_tape(ctx):
+    """O5 for the fixed-mixing driver in unrolled mode: one pass through the real loop body of scf_forward0(backward=True) with
+    stop-gradient tracking on, callees replaced by their frames (fresh values): the returned density, as the tape sees it, maps a
+    common shift of (previous density, new density) to the same shift, and whatever the tape holds constant has zero weight
+    when the two coincide."""
+    import seqm.seqm_functions.scf_loop as S_
+
+    SCFM = "seqm.seqm_functions.scf_loop"
+    ctx.under_contract(SCFM + ":scf_forward0", stubs=["fock_restricted", "elec_energy", "make_Pnew_factory", "get_error", "reshape_Hcore"], note="backward=True (the unrolled mode), iteration cap 0: one pass through the loop body")
+    NBk = 2
+    box = {}
+
+    def thunk():
+        st.tape_reset(True)
+        P0 = st.symbolic((1, NBk, NBk), "Pin")
+        box["P0"] = P0.clone()
+        one = st.tensor([1])
+        args = (st.symbolic((1, 1, 1), "M"), None, None, None, None, None, None, None, one, one, st.tensor([0]), one, 1, 1, None, None, None, None, P0, real("eps"), "AM1", None, None, None, None, None, None)
+        P, _ = S_.scf_forward0(*args, sp2=[False], scf_converger=[0, real("alpha")], backward=True, verbose=False)
+        return P, dict(st.TAPE["origin"])
+
+    def new_density(*a, **k):
+        def inner(F, *c):
+            box["Pn"] = st.symbolic((F.a.shape[0], NBk, NBk), "Pnew")
+            return box["Pn"].clone()
+        return inner
+
+    stubs = {SCFM + ":fock_restricted": lambda nmol, molsize, P, M, *a: st.symbolic((1, NBk, NBk), "F"), SCFM + ":elec_energy": lambda P, F, H: st.symbolic((P.a.shape[0],), "Eel"),
+             SCFM + ":make_Pnew_factory": new_density, SCFM + ":get_error": lambda Pold, P, nc, *a, **k: (nc, S(0.0), S(0.0)),
+             SCFM + ":reshape_Hcore": lambda M, nmol, molsize, method: st.symbolic((1, NBk, NBk), "Hc")}
+    try:
+        ex = ctx.explore(thunk, stubs=stubs, name="scf_forward0[backward=True, one pass]", constants={"MAX_ITER": 0}, max_paths=16)
+    finally:
+        st.tape_reset(False)
+    checked = 0
+    for p in ex.paths:
+        if p.raised is not None:
+            if isinstance(p.raised, Unmodelled):
+                raise p.raised
+            ctx.fail("driver_tape.scf_forward0.raises@p%d" % p.path_id, repr(p.raised) + p.notes.get("traceback", "")[-600:])
+            continue
+        P, origin = p.value
+        st.TAPE["origin"] = origin
+        P0, Pn = box["P0"], box["Pn"]
+        fix = {P0.a[0, i, j].n: Pn.a[0, i, j].n for i in range(NBk) for j in range(NBk)}
+        for i in range(NBk):
+            for j in range(NBk):
+                o = P.a[0, i, j].n
+                for sname in sorted(origin):
+                    v = E.var(sname, E.R)
+                    if v not in E.free_vars(o):
+                        continue
+                    d = E.substitute(st.tape_restore(E.diff(o, v)), fix)
+                    ctx.prove_eq("driver_tape.scf_forward0.P[%d,%d].held-constant(%s).has-no-weight-at-self-consistency@p%d" % (i, j, E.to_str(origin[sname], 50), p.path_id), Sym(d), S(0), pc=p.pc, replay=replay_driver_tape)
+                    checked += 1
+                tot = E.add(E.diff(o, P0.a[0, i, j].n), E.diff(o, Pn.a[0, i, j].n))
+                ctx.prove_eq("driver_tape.scf_forward0.P[%d,%d].tape-maps-a-common-shift-to-the-same-shift@p%d" % (i, j, p.path_id), Sym(st.tape_restore(tot)), S(1), pc=p.pc, replay=replay_driver_tape)
+                checked += 1
+        st.TAPE["origin"] = {}
+    if not checked:
+        ctx.error("driver_tape.vacuous", "no obligation generated")
+    ctx.assume_note("driver_tape: one molecule, 2x2 density, one pass of the loop body (the body does not depend on the iteration number); callees replaced by fresh values")
+
+
 def _quiet(fn):
     import contextlib, io
 
@@ -364,5 +579,5 @@ def _quiet(fn):
             return {"reproduced": False, "error": repr(exc)[:300]}
 
 
-TASKS_QUICK = ["additive_term_backward", "parameter_aliasing", "scf_adjoint_inputs"]
+TASKS_QUICK = ["additive_term_backward", "parameter_aliasing", "scf_adjoint_inputs", "mixer_tape", "driver_tape"]
 TASKS_THOROUGH = TASKS_QUICK
